@@ -40,6 +40,11 @@ type Ctx struct {
 }
 
 func load(repo string, overlay map[string][]byte) (*Ctx, error) {
+	// go/packages execs `go list` from PATH; the repository needs a newer
+	// toolchain than the system default (DESIGN.md 2.1)
+	if _, err := os.Stat("/opt/veriftools/go1.26.8/bin/go"); err == nil && !strings.Contains(os.Getenv("PATH"), "/opt/veriftools/go1.26.8/bin") {
+		os.Setenv("PATH", "/opt/veriftools/go1.26.8/bin:"+os.Getenv("PATH"))
+	}
 	cfg := &packages.Config{
 		Mode:    packages.LoadAllSyntax,
 		Dir:     repo,
